@@ -22,7 +22,7 @@ EXPLANATION = (
     "reference is in the type table the source-column extractor tests membership against, or is reached by one of its crawl idioms; "
     "R02.4 the branches of a set operation are wired independently: no container that is filled while wiring one branch is shared with the "
     "next branch; sub-queries' source columns are attributed within the branch's own table group; R02.5 the late resolution of an unqualified column over several relations keeps every "
-    "candidate that defines it (no first-match selection; = R13.4); R02.6 qualifier and column of a reference are read from the parse tree, not by splitting its text at '.' (= R16.5). Does not decide: positional wiring across "
+    "candidate that defines it (no first-match selection; = R13.4); R02.7 positions: the write-column list is ordered by the recorded position alone, and a list read by position inside one iteration of a loop is rebuilt in that iteration; R02.6 qualifier and column of a reference are read from the parse tree, not by splitting its text at '.' (= R16.5). Does not decide: positional wiring across "
     "set-operation branches as values, qualifier resolution beyond precedence, naming of un-aliased expressions."
 )
 RULE_TEXT = "one obligation per type-table member demanded by the grammar, per scope-map operand, per container used in the per-branch loop, per precedence site"
@@ -40,6 +40,12 @@ REQUIRED_FORMS = {
     "column_reference": "column references",
     "identifier": "bare identifiers",
 }
+
+
+def canon_name(prog: Prog, f: Fn, name: str) -> str:
+    from ..canon import origin
+
+    return origin(prog, f, name)
 
 
 def rules(ctx: Ctx) -> None:
@@ -138,16 +144,10 @@ def rules(ctx: Ctx) -> None:
     ctx.ob("R02.4", "sources-resolved-in-the-branch-scope", ok_grp, loc(eoq.mod, BL), "source columns of a branch are resolved against that branch's own table group")
 
     # ---- R02.1 precedence ------------------------------------------------------------------------
-    from . import c13
+    from .common import import_rules
 
-    sub = Ctx(ctx.pid, ctx.tier, prog, ctx.repo)
-    c13.rules(sub)
-    for o in sub.obligations:
-        if o.rule == "R13.3":
-            ctx.obligations.append(replace(o, rule="R02.1"))
-        elif o.rule == "R13.4":
-            # an unqualified reference over several relations is attributed to every candidate that defines it, never to a guessed first one
-            ctx.obligations.append(replace(o, rule="R02.5"))
+    # R13.4: an unqualified reference over several relations is attributed to every candidate that defines it, never to a guessed first one
+    import_rules(ctx, "C13", {"R13.3": "R02.1", "R13.4": "R02.5"})
     fl = flow(prog, eoq)
     # positional use of the write-column list: a subscript on a local bound from `<holder>.write_columns`
     def _from_write_columns(name: str) -> bool:
@@ -191,6 +191,71 @@ def rules(ctx: Ctx) -> None:
     meta = [n for n in sites if "get_table_columns" in u(n)]
     expl = [n for n in sites if n not in meta]
     ctx.ob("R02.1", "explicit-and-metadata-column-sites", bool(meta) and bool(expl), ci.loc(), f"{len(expl)} explicit and {len(meta)} metadata write-column site(s) in the INSERT/CREATE extractor")
+    # ---- R02.7 positions -----------------------------------------------------------------------------------------------------------
+    # (a) the write-column list is ordered by the recorded position alone: columns without a position keep their insertion order (the order
+    #     of the first branch's select items), so nothing else - a name, a hash - may take part in the sort key
+    H2 = prog.cls("core.holders.SubQueryLineageHolder")
+    wc = H2.methods.get("write_columns")
+    if wc is None:
+        raise AnalysisError("SubQueryLineageHolder.write_columns not found")
+    ctx.touched(wc)
+    sorts = [k for k in prog.walk_fn(wc) if isinstance(k, ast.Call) and (isinstance(k.func, ast.Name) and k.func.id == "sorted" or isinstance(k.func, ast.Attribute) and k.func.attr == "sort")]
+    ctx.floor("orderings in write_columns", len(sorts), 1)
+    for k in sorts:
+        key = next((kw.value for kw in k.keywords if kw.arg == "key"), None)
+        ok_key = False
+        why = "no key"
+        if isinstance(key, ast.Lambda) and len(key.args.args) == 1:
+            pn = key.args.args[0].arg
+            body = key.body
+            # the sorted elements are tuples (column, position): the key is exactly the position component
+            elts = [v for v in prog.value_sources(wc, k.args[0])] if k.args else []
+            comp = next((v for v in elts if isinstance(v, (ast.ListComp, ast.GeneratorExp)) and isinstance(v.elt, ast.Tuple)), None)
+            pos_idx = None
+            if comp is not None:
+                for i_, e_ in enumerate(comp.elt.elts):
+                    if any(isinstance(x, ast.Attribute) and x.attr == "INDEX" for x in ast.walk(e_)):
+                        pos_idx = i_
+            ok_key = isinstance(body, ast.Subscript) and isinstance(body.value, ast.Name) and body.value.id == pn and pos_idx is not None and prog.try_fold(body.slice, wc.mod, wc) == pos_idx
+            why = f"key is `{u(body)}`" + ("" if pos_idx is not None else "; the position component of the sorted tuples was not found")
+        elif key is not None:
+            why = f"key is `{u(key)}`"
+        ctx.ob("R02.7", "write-columns-ordered-by-position-only", ok_key, loc(wc.mod, k),
+               f"`{u(k)[:60]}`: the write columns are sorted by their recorded position and by nothing else ({why}); ties keep insertion order")
+    # (b) a list that is read by position inside one iteration of a loop is (re)built inside that iteration: carried over from the previous
+    #     iteration (clause, branch) the positions belong to the earlier clause
+    n_pos = 0
+    for f in prog.funcs.values():
+        if not f.mod.name.startswith("sqllineage.core.parser.sqlfluff.extractors"):
+            continue
+        cfgf = None
+        for sub_ in prog.walk_fn(f):
+            if not (isinstance(sub_, ast.Subscript) and isinstance(sub_.ctx, ast.Load) and isinstance(sub_.value, ast.Name) and isinstance(sub_.slice, ast.Name)):
+                continue
+            C, j = sub_.value.id, sub_.slice.id
+            # j counts positions of another sequence in an enclosing loop
+            if not any(kind in ("unpack:0",) and isinstance(node, ast.For) and isinstance(node.iter, ast.Call) and u(node.iter.func) == "enumerate" for kind, node in prog.local_defs(f, j)):
+                continue
+            appends = [k for k in prog.walk_fn(f) if isinstance(k, ast.Call) and isinstance(k.func, ast.Attribute) and k.func.attr in ("append", "extend") and isinstance(k.func.value, ast.Name) and k.func.value.id == C]
+            if not appends:
+                continue
+            loops_of = lambda node: [a for a in prog.ancestors(node) if isinstance(a, ast.For)]
+            common_loops = [L for L in loops_of(sub_) if all(any(L is x for x in loops_of(a)) for a in appends)]
+            if not common_loops:
+                continue
+            L1 = common_loops[-1]  # the outermost loop holding the read and every append
+            n_pos += 1
+            if cfgf is None:
+                cfgf = flow(prog, f).cfg
+            inits = [cfgf.node_for(node) for kind, node in prog.local_defs(f, C) if kind == "assign" and any(L1 is x for x in prog.ancestors(node))]
+            inits = [i_ for i_ in inits if i_ is not None]
+            hdr = cfgf.node_for(L1)
+            fresh = bool(inits) and all(not cfgf.reach(hdr, cfgf.node_for(a), avoid=inits) for a in appends if cfgf.node_for(a) is not None)
+            ctx.ob("R02.7", f"positional-list-rebuilt-per-iteration:{f.owner}:{canon_name(prog, f, C)}", fresh, loc(f.mod, sub_),
+                   f"`{u(sub_)}` reads `{C}` by position inside `for {u(L1.target)} in {u(L1.iter)[:40]}`; `{C}` is filled inside that loop and must be re-created in each "
+                   f"iteration before it is filled, otherwise the positions of an earlier {u(L1.target)} are used")
+    ctx.extra["positional_reads_of_per_iteration_lists"] = n_pos
+
     # ---- R02.6 qualifier / column split of a reference follows the parse tree (= R16.5) -------------------------------------------
     from .c16 import reference_parts_rule
 
